@@ -14,4 +14,5 @@ for c in $checks; do
 done
 git -C /repo checkout -- .
 git -C /repo status --short | head -3
+git -C /verif checkout -- evidence 2>/dev/null  # evidence files written while a change was applied are not kept
 echo "alarms: ${res:-none}" | tee "/verif/seeded/refactor-$id/result.txt"
